@@ -1,8 +1,5 @@
 """C06 — result completeness."""
-import glob
-import hashlib
 import os
-import shutil
 
 from vlib import common
 
@@ -10,49 +7,6 @@ from vlib import common
 def key_fn(case, obs, verdict):
     f = case.split(" ")
     return "%s:%s" % (f[0], verdict.split(" ")[0])
-
-
-def ocaml_model(ctx):
-    """Like ctx.ocaml_model, but the extraction is compiled as module C06_model and module Model is the
-    shim ocaml/C06/shim/model.ml (the extraction contains Coq's module Z, which would hide zarith's Z
-    from ocaml/common/conv.ml after `open Model`)."""
-    src = os.path.join(common.COQ, "extracted")
-    bdir = os.path.join(common.BUILD, "ocaml", "mC06")
-    os.makedirs(bdir, exist_ok=True)
-    for stale in ("model.mli", "model.cmi"):
-        if os.path.exists(os.path.join(bdir, stale)):
-            os.remove(os.path.join(bdir, stale))
-    files = []
-    for ext in (".mli", ".ml"):
-        p = os.path.join(src, "C06_model" + ext)
-        if not os.path.exists(p):
-            ctx.brokens.append(("extracted model %s missing" % p, ctx.write_replay("extract", "missing " + p)))
-            return None
-        shutil.copyfile(p, os.path.join(bdir, "c06_model" + ext))
-        files.append("c06_model" + ext)
-    extra = [os.path.join(common.VERIF, "ocaml", "C06", "shim", "model.ml")]
-    extra += sorted(glob.glob(os.path.join(common.VERIF, "ocaml", "common", "*.ml")))
-    extra += [p for p in sorted(glob.glob(os.path.join(common.VERIF, "ocaml", "C06", "*.ml"))) if os.path.basename(p) != "main.ml"]
-    extra += [os.path.join(common.VERIF, "ocaml", "C06", "main.ml")]
-    for p in extra:
-        shutil.copyfile(p, os.path.join(bdir, os.path.basename(p)))
-        files.append(os.path.basename(p))
-    out = os.path.join(common.BIN, "mC06")
-    h = hashlib.sha256()
-    for f in files:
-        h.update(open(os.path.join(bdir, f), "rb").read())
-    stamp = os.path.join(bdir, "stamp")
-    if os.path.exists(out) and os.path.exists(stamp) and open(stamp).read() == h.hexdigest():
-        return out
-    rc, txt = common.sh(["ocamlfind", "ocamlopt", "-w", "-a", "-inline", "50", "-package", "zarith,str", "-linkpkg", "-o", out] + files,
-                        cwd=bdir, timeout=600)
-    ctx.log("ocaml build mC06: rc=%d" % rc)
-    if rc != 0:
-        p = ctx.write_replay("ocaml", "ocaml build of the extracted model failed\n" + txt)
-        ctx.brokens.append(("extracted model does not build", p))
-        return None
-    open(stamp, "w").write(h.hexdigest())
-    return out
 
 
 RULE = "non-trivial: line/setters cases inside the guard of C06_line_roundtrip; distinct = distinct case lines"
@@ -67,7 +21,7 @@ def run(ctx):
     if model_ok:
         ctx.properties(extra_files=[])
     h = ctx.build_harness("hC06")
-    m = ocaml_model(ctx) if model_ok else None
+    m = ctx.ocaml_model("mC06", "C06_model", "C06") if model_ok else None
     if h and m:
         st = common.correspondence(ctx, h, m, key_fn=key_fn)
         if st:
